@@ -61,7 +61,7 @@ PROPS = {
               "section 8.1; non-trivial = at least one non-empty line; distinct = distinct (document text, style)"),
         builds=[('rel', 1.0, 1.0)],
         must_observe=['block_scalars_matching', 'chomp_strip', 'chomp_clip', 'chomp_keep', 'explicit_indicator', 'auto_detected', 'eof_no-final-newline', 'content_indent_beyond_buffer'],
-        assumptions=COMMON_ASSUME + ["a content-less scalar is empty under strip and clip (YAML 1.2.2 example 8.6)", "explicit indentation indicators are not generated at the top level (their meaning there is contested)"]),
+        assumptions=COMMON_ASSUME + ["a content-less scalar is empty under strip and clip (YAML 1.2.2 example 8.6)", "at the top level an explicit indentation indicator is read as counting from column 0 (the libyaml / PyYAML reading, and the literal reading of the statement)"]),
     'C07': dict(
         rule=("inputs from the C01 generators (exhaustive small scope, soups, line soups, corpus mutants), model-rendered streams, the yaml-test-suite "
               "documents and alias/duplicate-key/tag-mismatch templates and their mutants; a tee receiver logs the very events the loader was given and an "
@@ -167,6 +167,16 @@ for k, (t, ref) in TECH.items():
                                   'a universally quantified property over unbounded inputs cannot be settled by a finite run, so exploration is the honest level')
         PROPS[k]['level_note'] = ('trusts: the harness oracles and reference functions (written from YAML 1.2.2 / the property text, not from the code under test), rustc/cargo, '
                                   'and that /repo builds with feature verif-hooks; covers only the executions this run produced; known findings in /verif/known_findings.json are reported as KNOWN-FINDING')
+
+# workload scales per build: (profile, quick scale, thorough scale)
+for k in ['C02', 'C10', 'C14', 'C17']:
+    PROPS[k]['builds'] = [('rel', 5.0, 5.0)]
+PROPS['C01']['builds'] = [('rel', 5.0, 5.0), ('chk', 1.0, 2.0)]
+PROPS['C12']['builds'] = [('rel', 5.0, 5.0), ('chk', 1.0, 2.0)]
+for k in ['C03', 'C04', 'C05', 'C06', 'C07', 'C08', 'C13', 'C15', 'C16', 'C18', 'C19']:
+    PROPS[k]['builds'] = [('rel', 4.0, 4.0)]
+PROPS['C09']['builds'] = [('rel', 3.0, 2.5)]
+PROPS['C20']['builds'] = [('rel', 3.0, 2.5)]
 
 # supplementary Miri pass (thorough tier): scale of the quick workload that is run under the interpreter
 for k, sc in {'C01': 0.002, 'C10': 0.002, 'C18': 0.01, 'C19': 0.003, 'C20': 0.004}.items():
